@@ -21,6 +21,7 @@ pub fn def_use(
                 .operation()
                 .scalars_read()
                 .into_iter()
+                .flatten()
                 .for_each(|scalar_read| {
                     rd[location].locations().iter().for_each(|rd| {
                         rd.function_location()
@@ -31,6 +32,7 @@ pub fn def_use(
                             .operation()
                             .scalars_written()
                             .into_iter()
+                            .flatten()
                             .for_each(|scalar_written| {
                                 if scalar_written == scalar_read {
                                     du.entry(rd.clone()).or_default().insert(location.clone());
